@@ -23,8 +23,8 @@ STEPS = 5
 
 
 @st.composite
-def init_cases(draw):
-    dom = draw(gen.domains(2, 4, 1, 3, cap=81))
+def init_cases(draw, tier='quick'):
+    dom = draw(gen.domains(2, 4 if tier == 'quick' else 5, 1, 3 if tier == 'quick' else 4, cap=81 if tier == 'quick' else 400))
     attrs, shape = dom['attrs'], dom['shape']
     witness = [draw(st.integers(0, s - 1)) for s in shape]
     profile = draw(st.sampled_from(['cold', 'cold', 'cold', 'cold_zeros', 'warm', 'warm_zeros', 'warm_final', 'warm_final_zeros']))
@@ -264,7 +264,7 @@ def machine(tier, record, timeup):
             super().__init__()
             self.state = None; self.history = []; self.out = Out(); self.init = None
 
-        @initialize(init=init_cases())
+        @initialize(init=init_cases(tier))
         def start(self, init):
             if timeup(): return
             self.init = init
